@@ -257,7 +257,8 @@ def judge_legacy(rec, rnd, tmp):
     cr = [c for c in cr if not expression_like(c.pattern)]
     if not cr:
         return
-    bad = R.CsvRule(rnd.choice(['(', '[a-', '*X', 'A{2,1}', '(?P<n>x)(?P<n>y)', 'contains(amount, "x")', 'description + 1 > 2', 'regex("(")',
+    # (some of the broken patterns occur LITERALLY in statement descriptions: '*7', '*COSTCO', '(EU' - an invalid regular expression matches nothing all the same)
+    bad = R.CsvRule(rnd.choice(['(', '[a-', '*X', 'A{2,1}', '*7', '*COSTCO', '*STAR', '+', 'Mktp US*7 (', '(EU', 'bucks  *7', '*', '(?P<n>x)(?P<n>y)', 'contains(amount, "x")', 'description + 1 > 2', 'regex("(")',
                                 'field.nope == "x"', 'startswith(5, "a")']), [], 'Bad', 'BadCat', 'BadSub', ['badtag'])
     pos = rnd.randint(0, len(cr))
     with_bad = cr[:pos] + [bad] + cr[pos:]
@@ -409,6 +410,41 @@ def judge_views(rec, rnd):
             break
 
 
+def field_dependent_failure_probe(rec, tmp):
+    """Rows of ONE statement that repeat description, amount, day and location and differ only in a custom column the rule needs: whether the rule can be
+    evaluated is decided per row - each row is classified as it is when it is the only row of the file."""
+    from tally.format_parser import parse_format_string
+    from tally.parsers import parse_generic_csv
+    text = ('[Ordered]\nlet: o = next(r.amt for r in orders if r.item == field.ref)\nmatch: contains("AMAZON") and o > 0\ncategory: Shopping\nsubcategory: Matched\n'
+            'field: order_amt = o\ntags: ordered, {field.ref}\n\n'
+            '[Divide]\nmatch: contains("AMAZON") and amount / len(field.note) > 1\ncategory: Shopping\nsubcategory: Noted\n\n'
+            '[Amazon]\nmatch: contains("AMAZON")\ncategory: Shopping\nsubcategory: General\n')
+    path = O.write(os.path.join(tmp, 'fd.rules'), text)
+    rules, transforms = O.production_load(path)
+    rows = {'orders': [{'amt': 25.0, 'item': 'Book'}, {'amt': 9.0, 'item': 'Cable'}]}
+    spec = parse_format_string('{date:%Y-%m-%d},{description},{amount},{ref},{note}')
+    variants = [('Book', 'gift'), ('zzz', ''), ('Cable', ''), ('', 'x'), ('Book', ''), ('nope', 'long note')]
+
+    def read(lines):
+        p = os.path.join(tmp, 'fd.csv')
+        with open(p, 'w', encoding='utf-8') as f:
+            f.write('Date,Description,Amount,Ref,Note\n' + ''.join('2025-03-04,AMAZON MKTP US,25.00,%s,%s\n' % v for v in lines))
+        out = parse_generic_csv(p, spec, rules, source_name='Card', transforms=transforms, data_sources=O.copy_rows(rows))
+        return [(t['merchant'], t['category'], t['subcategory'], sorted(t['tags']), repr(sorted((t.get('extra_fields') or {}).items()))) for t in out]
+    try:
+        alone = {v: read([v])[0] for v in variants}
+        for order in (variants, variants[::-1], [variants[1], variants[0], variants[3], variants[2], variants[5], variants[4]]):
+            got = read(order)
+            rec.count('field_dependent_failure_rows', len(order))
+            for v, g in zip(order, got):
+                if g != alone[v]:
+                    rec.violation('failing-rule-applied-or-skipped-by-what-an-earlier-row-did', f'row with ref={v[0]!r} note={v[1]!r} (the rows differ in these columns only) is classified '
+                                  f'{g} in a file of {len(order)} rows and {alone[v]} as the only row', {'kind': 'field-dependent'})
+                    return
+    except Exception as e:
+        rec.violation('parse_generic_csv-aborts:' + type(e).__name__, f'field-dependent failure probe: {type(e).__name__}: {e}', {'kind': 'field-dependent'})
+
+
 def loader_rows_probe(rec, tmp):
     """Supplemental rows as the real loader builds them: a rule that reads a column those rows do not have - by attribute or by subscript - cannot be
     evaluated and is skipped; the outcome is what the file without that rule gives."""
@@ -547,6 +583,7 @@ def run(rec, shard, nshards, t):
             cli_run(rec, rnd, tmp, k)
         if shard == 0:
             loader_rows_probe(rec, tmp)
+            field_dependent_failure_probe(rec, tmp)
     finally:
         shutil.rmtree(tmp, ignore_errors=True)
 
@@ -558,6 +595,9 @@ def replay(rec, case):
     try:
         if case['kind'] == 'loader-rows':
             loader_rows_probe(rec, tmp)
+            return
+        if case['kind'] == 'field-dependent':
+            field_dependent_failure_probe(rec, tmp)
             return
         if case['kind'] == 'poison':
             rf = R.RuleFile.from_json(case['rf'])
